@@ -138,8 +138,41 @@ def long_history(b, sym):
             first.setdefault(e.fmt, cur[e.fmt])
 
 
+def after_rename(b, sym):
+    """record, rename, create -dr, then alter / keep / restore: the renamed file is still judged against its first recorded digest"""
+    b.mkfile("R/f.txt", 1)
+    b.mkfile("R/d/other.txt", 5)
+    fm = sym.choose("formats", [["md5"], ["xxh64", "c4"]])
+    r = b.run("create", root="R", h=fm)
+    b.require(r.exit == 0, "unaltered-exit-0", str(r))
+    new = sym.choose("renamed_to", ["R/g.txt", "R/d/f moved.txt"])
+    b.rename("R/f.txt", new)
+    r = b.run("create", root="R", h=fm, dr=True)
+    b.require(r.exit == 0 and r.exc is None, "unaltered-exit-0", "create -dr: %s" % r)
+    relnew = cm_rel(new)
+    for g, cid in enumerate([sym.choose("content_after_rename", [1, 2]), sym.choose("content_later", [1, 2])]):
+        b.alter(new, cid)
+        r = b.run("create", root="R", h=fm) if not sym.flag("sf%d" % g) else b.run("create", root="R", h=fm, sf=[new])
+        rec = b.manifests("R")[-1].record(relnew)
+        b.require(rec is not None, "file-recorded-once", "generation %d after the rename" % (g + 1))
+        exp = "verified" if cid == 1 else "failed"
+        for e in rec.entries:
+            b.require(e.action != "original", "original-only-first", "generation %d after the rename: %s marked original again" % (g + 1, e.fmt))
+            b.require(e.action == exp, "action-vs-first-recorded", "generation %d after the rename, content %s: %s is %s, expected %s"
+                      % (g + 1, "unchanged" if cid == 1 else "altered", e.fmt, e.action, exp))
+        b.require(r.exit == (0 if cid == 1 else 11), "exit-code", "generation %d after the rename: exit %s" % (g + 1, r.exit))
+
+
+def cm_rel(p):
+    import posixpath
+    return posixpath.relpath(p, "R")
+
+
 def harnesses(tier):
-    hs = [Harness("c04-long", long_history, frontier=3, budget_s=900,
+    hs = [Harness("c04-after-rename", after_rename, frontier=4, budget_s=600,
+                  what="record, rename, create -dr, then two more generations with the content kept / altered / restored (folder or -sf mode)",
+                  bounds={"generations": 4}, outside=[]),
+          Harness("c04-long", long_history, frontier=3, budget_s=900,
                   what="12 generations: a second format first recorded in generation 2/5/9, content altered from generation 10/11, optionally restored in 12",
                   bounds={"generations": 12, "formats": ["md5", "xxh64"]}, outside=[])]
     if tier == "quick":
